@@ -26,7 +26,14 @@ def specs(tier):
                      'development/4.3', queue=False, depth=5, stale=False,
                      statuses_int=['SUCCESSFUL', 'FAILED']),
                 spec('c06-q-D2', 'D2', 'development/4.3', 'development/5.1',
-                     depth=4, statuses_int=['SUCCESSFUL', 'INPROGRESS'])]
+                     depth=4, statuses_int=['SUCCESSFUL', 'INPROGRESS']),
+                # a developer commits on an integration branch after CI
+                # reported: the new tip has no build
+                spec('c06-noq-D3-manual', 'D3', 'development/4.3', None,
+                     queue=False, depth=4, stale=False, pushes=0,
+                     statuses_int=['SUCCESSFUL'], manual=['commit'],
+                     init=[['open', PR1, 'development/4.3'],
+                           ['eval_pr', 1]])]
     return [spec('c06-noq-D2', 'D2', 'development/4.3', 'development/4.3',
                  queue=False, depth=7),
             spec('c06-q-D2', 'D2', 'development/4.3', 'development/5.1',
@@ -35,7 +42,17 @@ def specs(tier):
                  'stabilization/4.3.18', skip=True, depth=7),
             spec('c06-q-D3', 'D3', 'development/4.3', 'development/5.1',
                  depth=6,
-                 statuses_int=['SUCCESSFUL', 'STOPPED', 'NOTSTARTED'])]
+                 statuses_int=['SUCCESSFUL', 'STOPPED', 'NOTSTARTED']),
+            spec('c06-noq-D3-manual', 'D3', 'development/4.3', None,
+                 queue=False, depth=6, stale=False, pushes=0,
+                 statuses_int=['SUCCESSFUL', 'FAILED'],
+                 manual=['commit', 'revert'],
+                 init=[['open', PR1, 'development/4.3'], ['eval_pr', 1]]),
+            spec('c06-q-D3-manual', 'D3', 'development/4.3', None,
+                 depth=6, stale=False, pushes=0,
+                 statuses_int=['SUCCESSFUL', 'FAILED'],
+                 manual=['commit', 'revert'],
+                 init=[['open', PR1, 'development/4.3'], ['eval_pr', 1]])]
 
 
 def extend(cr, tier, seed, workers):
